@@ -38,6 +38,7 @@ import M4riProofs.Top
 import M4riProofs.GenTie
 import M4riProofs.GenTieAlg
 import M4riProofs.GenTieSlice
+import M4riProofs.GenTiePleFinal
 namespace M4ri.Props.C03
 open M4ri M4ri.BMat
 
@@ -156,5 +157,14 @@ theorem pluq_end_to_end (L1 L2 L3 : Nat) {A : BMat} (hA : A.WF) :
 #check @M4ri.GenTieSlice.plePermInit_eq
 #check @M4ri.GenTieSlice.plePermUpdate_eq
 #check @M4ri.GenTieSlice.plePermUpdate_model
+
+
+/-! ### tie to the C text: the RECURSIVE BRANCH of `_mzd_ple` (split, 6 matrix windows, 4 permutation windows, first recursive call, Schur
+    complement through the translated `mzd_apply_p_left` and `_mzd_trsm_lower_left`, product, second recursive call, fix-ups of A10 / P / Q,
+    L compression) is generated by vlib/ctrans.py on every check; with the recursive calls instantiated by the model at `fuel` it returns
+    exactly what `pleRec (fuel + 1)` computes: rank, storage, P, Q (GenTiePle.lean; call contracts derived from `pleRec_spec`) -/
+#check @M4ri.GenTiePle.pleRecStep_pleRec_full
+#check @M4ri.GenTiePle.pleRecStep_pleRec
+#check @M4ri.GenTiePle.pleRecStep_eq
 
 end M4ri.Props.C03
